@@ -57,7 +57,10 @@ def oracle(rec, strict=True):
     if 'pool_exc' in res and res['pool_exc']['type'] != 'KeyboardInterrupt':
         return f"{where}: leaving the pool raised {res['pool_exc']['type']}: {res['pool_exc']['args'][:100]}", 'pool_exit'
     if out.get('outcome') == 'ok':
-        msg = S.check_value(call, out)
+        if call.get('elem') == 'bigtuple':
+            msg = None if len(out.get('value') or []) == call['n'] else f"{len(out.get('value') or [])} results for {call['n']} tasks"
+        else:
+            msg = S.check_value(call, out)
         if msg:
             return f"{where}: the call returned but {msg}", 'wrong_result'
     else:
@@ -202,6 +205,18 @@ def run(ctx):
         b['pool'].pop('keep_alive', None)
         b['budget'] = 20
         scens.insert(0, with_sigint(b, {'mode': 'line', 'at_re': pat, 'hit': 1}, '@pb'))
+    # ... and an interrupt while many LARGE task arguments are queued (more than the pipes hold): terminate() has to empty the
+    # queues completely before it can join them
+    for j in range(3 if quick else 12):
+        b = base_scen(random.Random(40 + j), 920 + j, 'fork')
+        b['pool'].pop('keep_alive', None)
+        nq = [24, 40][j % 2]
+        b['calls'][0].update({'kind': ['map', 'map_unordered', 'imap_unordered'][j % 3], 'n': nq, 'input': 'list', 'elem': 'bigtuple',
+                              'arg_bytes': [200000, 1000000][j % 2], 'params': {'chunk_size': 1, 'max_tasks_active': nq},
+                              'init': False, 'exit': False})
+        b['env'] = {'VERIF_TASK_SLEEP': '0.05'}
+        b['budget'] = 40
+        scens.insert(0, with_sigint(b, {'mode': 'time', 'delay': [0.15, 0.3, 0.5][j % 3], 'group': j % 2 == 0}, f'@big{j}'))
     recs = runner.run_many(scens, 'c17', jobs=10)
     bad, hangs = analyse(recs)
     out_v, seen = [], set()
